@@ -41,6 +41,15 @@ CLAIMS = {
             "nothing.",
             "fake datagram transport, SimLoop, integer tuning (EXCHANGE_LIFETIME 208000 ticks), at most two symbolic instants per obligation, copies at exact deadlines accept both orders",
             TECH_E1, "DESIGN.md 5 C04"),
+    "C08": ("On stack S as server with a real ObservableResource (fast or suspending render), a CON or NON registration is "
+            "followed by event sequences by symbolic index over 11 event kinds (state change, ACK, Reset, retransmission timer up "
+            "to give-up, re-registration, plain / deregistering GET on the token, transport error, unsuccessful notification, "
+            "time passing, shutdown), also with a second observer; a registration monitor checks token, strictly increasing "
+            "Observe values, exactly one cancellation callback per ended registration, observer count, silence after the end and, "
+            "after quiescing, that the latest state was notified. Known finding D7 (Reset for NON notifications) has a companion "
+            "obligation.",
+            "fake datagram transport, SimLoop, integer tuning; 3 (4) events per run; Reset only for unacknowledged notifications",
+            TECH_E1, "DESIGN.md 5 C08"),
     "C09": ("On stack S as server, handler outcome (13 kinds incl. every renderable error class, arbitrary exceptions such as "
             "KeyError/IndexError/TimeoutError, wrong return types, failing error renderers) x method x CON/NON x fast/slow x "
             "known/unknown path x nested site x concurrent failing/succeeding neighbour, all by symbolic index, are run to "
